@@ -71,30 +71,48 @@ def isCharBoundary (s : Bytes) (i : Nat) : Bool :=
 
 @[inline] def isCont (b : UInt8) : Bool := 0x80 ≤ b && b ≤ 0xBF
 
-/-- Well-formed UTF-8 (Unicode Table 3-7). -/
-def validUtf8 : Bytes → Bool
-  | [] => true
+/-- length of the well-formed UTF-8 character at the head of the text (Unicode Table 3-7), if any -/
+def firstCharLen : Bytes → Option Nat
+  | [] => none
   | b0 :: r =>
-    if b0 < 0x80 then validUtf8 r
+    if b0 < 0x80 then some 1
     else if 0xC2 ≤ b0 && b0 ≤ 0xDF then
       match r with
-      | b1 :: r' => isCont b1 && validUtf8 r'
-      | _ => false
+      | b1 :: _ => if isCont b1 then some 2 else none
+      | _ => none
     else if 0xE0 ≤ b0 && b0 ≤ 0xEF then
       match r with
-      | b1 :: b2 :: r' =>
-        (if b0 == 0xE0 then 0xA0 ≤ b1 && b1 ≤ 0xBF
-         else if b0 == 0xED then 0x80 ≤ b1 && b1 ≤ 0x9F
-         else isCont b1) && isCont b2 && validUtf8 r'
-      | _ => false
+      | b1 :: b2 :: _ =>
+        if (if b0 == 0xE0 then 0xA0 ≤ b1 && b1 ≤ 0xBF
+            else if b0 == 0xED then 0x80 ≤ b1 && b1 ≤ 0x9F
+            else isCont b1) && isCont b2 then some 3 else none
+      | _ => none
     else if 0xF0 ≤ b0 && b0 ≤ 0xF4 then
       match r with
-      | b1 :: b2 :: b3 :: r' =>
-        (if b0 == 0xF0 then 0x90 ≤ b1 && b1 ≤ 0xBF
-         else if b0 == 0xF4 then 0x80 ≤ b1 && b1 ≤ 0x8F
-         else isCont b1) && isCont b2 && isCont b3 && validUtf8 r'
-      | _ => false
-    else false
+      | b1 :: b2 :: b3 :: _ =>
+        if (if b0 == 0xF0 then 0x90 ≤ b1 && b1 ≤ 0xBF
+            else if b0 == 0xF4 then 0x80 ≤ b1 && b1 ≤ 0x8F
+            else isCont b1) && isCont b2 && isCont b3 then some 4 else none
+      | _ => none
+    else none
+
+theorem firstCharLen_bounds (l : Bytes) (k : Nat) (h : firstCharLen l = some k) : 1 ≤ k ∧ k ≤ l.length := by
+  unfold firstCharLen at h
+  repeat' split at h
+  all_goals first
+    | (simp only [Option.some.injEq] at h; subst h; simp only [List.length_cons]; omega)
+    | (simp at h)
+
+/-- Well-formed UTF-8: a sequence of well-formed characters. -/
+def validUtf8 (l : Bytes) : Bool :=
+  match h : firstCharLen l with
+  | none => l.isEmpty
+  | some k => validUtf8 (l.drop k)
+termination_by l.length
+decreasing_by
+  have := firstCharLen_bounds l k h
+  simp only [List.length_drop]
+  omega
 
 def ValidUtf8 (s : Bytes) : Prop := validUtf8 s = true
 
